@@ -168,3 +168,16 @@ Definition prefix_free (ks : list bytes) : Prop :=
 Definition db_wf (db : list entry) : Prop :=
   sorted_raw db = true /\ prefix_free (keys_of db) /\
   Forall (fun e => wf_bytes (e_key e) /\ e_key e <> [] /\ e_ver e < 18446744073709551616 /\ (length (e_key e) <= 248)%nat) db.
+
+(* distinct user keys in database order (ascending, since the database is sorted and prefix-free) *)
+Fixpoint dedup_keys (es : list entry) (last : option bytes) : list bytes :=
+  match es with
+  | [] => []
+  | e :: r => if (match last with Some lk => bytes_eqb (e_key e) lk | None => false end)
+              then dedup_keys r last else e_key e :: dedup_keys r (Some (e_key e))
+  end.
+Definition spec_iter_fwd (db : list entry) (ver : N) (prefix : bytes) : list (bytes * bytes) :=
+  flat_map (fun k => if prefixb prefix k then match spec_get db ver k with Some v => [(k, v)] | None => [] end else [])
+           (dedup_keys db None).
+Definition spec_iter (db : list entry) (ver : N) (prefix : bytes) (reverse : bool) : list (bytes * bytes) :=
+  if reverse then rev (spec_iter_fwd db ver prefix) else spec_iter_fwd db ver prefix.
